@@ -5,10 +5,11 @@ LEVEL = "other"
 TAGS = ("C20",)
 CONTRACT_MODULES = ALL_CONTRACTS
 SP = "StreamProcessor.StreamProcessor."
-FUNCTIONS = [SP + "process_line", SP + "__init__", H + "handleGcode", P + "handleGcodeQueuing", P + "handleAtCommandQueuing"]
+FUNCTIONS = [SP + "process_line", SP + "__init__", H + "handleGcode", P + "handleGcodeQueuing", P + "handleAtCommandQueuing",
+             "GcodeParser.GcodeParser.parse"]
 ASSUMPTIONS = ["A2", "A3", "A4", "A6"]
 BOUNDED = [script("stream_twin.py")]
-EXTRA_ASSUMPTIONS = ["the parser is seen through an abstract view of a parsed line (eol, text, type, gcode, sub-code and normalised command are uninterpreted functions of the line); its behaviour is the subject of C18/C19",
+EXTRA_ASSUMPTIONS = ["the parser is seen through an abstract view of a parsed line (eol, text, type, gcode, sub-code and normalised command are uninterpreted functions of the line); that the fields of the re-used parser object describe the current line only -- whatever the previous line left behind -- is the clause C18.fields-describe-this-line-only of parse(), discharged in this check too; the rest of the parser's behaviour is the subject of C18/C19",
                      "process_line is verified for handler results None / IGNORE_GCODE_CMD / lists of 1..3 symbolic commands and 0..2 commands sent by an @-command (bounded in these lengths only)",
                      "LineProcessorStream.read handing BYTES to process_line is outside the contract"]
 EXPLANATION = ("Deductive part: process_line(line) delegates exactly once to handleGcode(normalised(line), gcode(line), subcode(line)) on "
